@@ -104,6 +104,7 @@ def _value_param_case(builder, field, mk_elem, spec, tracked, existing, extra_fi
         for cf in (constants.hazen_williams_constants, constants.pdd_constants):
             cx.interp.call(cf, [m])
         upd = Updater()
+        before = cx.interp.getitem(fields[field], n) if existing else None      # the Param object the constraints built earlier refer to
         cx.target(builder.build, m, wn, upd, GenericIter([n]))
         cx.el, cx.wn, cx.m = el, wn, m
 
@@ -115,9 +116,13 @@ def _value_param_case(builder, field, mk_elem, spec, tracked, existing, extra_fi
             val = leaf.value if isinstance(leaf, Leaf) else leaf
             want = spec(cx, el, wn)
             writes_ok = all((not isinstance(o, SymMap)) or (o is mp and k.t.eq(n.t)) for (o, k, v) in cx.path.writes)
-            return [("param_value_is_spec", library.as_real(val) == want),
-                    ("frame_only_own_entry", writes_ok),
-                    ("updater_tracks_inputs", updater_registered(upd, el, tracked, builder))]
+            posts = [("param_value_is_spec", library.as_real(val) == want),
+                     ("frame_only_own_entry", writes_ok),
+                     ("updater_tracks_inputs", updater_registered(upd, el, tracked, builder))]
+            if existing:
+                # rows built earlier hold the parameter *object*: an update must change its value, not put another object in its place
+                posts.append(("an_existing_parameter_is_updated_in_place_the_object_the_rows_refer_to_stays", leaf is before))
+            return posts
         cx.ensure(post)
     return Case("%s,existing=%s" % (builder.__name__, existing), build, crosscheck=False)
 
@@ -191,6 +196,7 @@ def _pnom_case(per_node, existing):
         wn = WN(options=options(cx, required_pressure=pg))
         wn.nodes.append((n, node))
         m = cx.obj(ModelStub, **({"pnom": leafmap("pnom", True)} if existing else {}))
+        before = cx.interp.getitem(m.fields["pnom"], n) if existing else None
         cx.interp.call(constants.pdd_constants, [m])
         upd = Updater()
         eff = cx.t(pn) if per_node else cx.t(pg)
@@ -203,7 +209,8 @@ def _pnom_case(per_node, existing):
             leaf = cx.interp.getitem(m.fields["pnom"], n)
             return [("param_value_is_spec", library.as_real(leaf.value) == eff),
                     ("accepted_only_above_delta", eff > real_val(0.05)),
-                    ("updater_tracks_inputs", updater_registered(upd, node, ["required_pressure"], param.pnom_param))]
+                    ("updater_tracks_inputs", updater_registered(upd, node, ["required_pressure"], param.pnom_param))] + \
+                ([("an_existing_parameter_is_updated_in_place_the_object_the_rows_refer_to_stays", leaf is before)] if existing else [])
         cx.ensure(post)
     return Case("pnom_param,per_node=%s,existing=%s" % (per_node, existing), build, crosscheck=False)
 
@@ -230,6 +237,7 @@ def _pdd_poly_case(per_node, exp_mode, existing):
         wn.nodes.append((n, node))
         names = ["pdd_poly%d_coeffs_%s" % (i, c) for i in (1, 2) for c in "abcd"]
         m = cx.obj(ModelStub, **({k: leafmap(k, True) for k in names} if existing else {}))
+        before = {k: cx.interp.getitem(m.fields[k], n) for k in names} if existing else {}
         cx.interp.call(constants.pdd_constants, [m])
         upd = Updater()
         P0 = cx.t(p0n) if per_node else cx.t(p0g)
@@ -265,7 +273,7 @@ def _pdd_poly_case(per_node, exp_mode, existing):
                 ("poly2_slope_matches_power_law", dpoly(a2, b2, c2, PF - dl) == dpw(hi)),
                 ("poly2_joins_full_demand_at_Preq", z3.And(poly(a2, b2, c2, d2, PF) == 1, dpoly(a2, b2, c2, PF) == sl)),
                 ("updater_tracks_inputs", updater_registered(upd, node, ["minimum_pressure", "required_pressure"], param.pdd_poly_coeffs_param)),
-            ]
+            ] + ([("existing_parameters_are_updated_in_place_the_objects_the_rows_refer_to_stay", all(cx.interp.getitem(m.fields[k], n) is before[k] for k in names))] if existing else [])
         cx.ensure(post)
     return Case("pdd_poly,per_node=%s,exponent=%s,existing=%s" % (per_node, exp_mode, existing), build, crosscheck=False)
 
@@ -283,6 +291,7 @@ def _leak_poly_case(cls, existing):
         wn.nodes.append((n, node))
         names = ["leak_poly_coeffs_" + c for c in "abcd"]
         m = cx.obj(ModelStub, **({k: leafmap(k, True) for k in names} if existing else {}))
+        before = {k: cx.interp.getitem(m.fields[k], n) for k in names} if existing else {}
         cx.interp.call(constants.leak_constants, [m])
         upd = Updater()
         cx.target(param.leak_poly_coeffs_param.build, m, wn, upd, GenericIter([n]))
@@ -299,7 +308,8 @@ def _leak_poly_case(cls, existing):
             return [("cubic_joins_zero_branch_at_p=0", z3.And(poly(a, b, c, d, 0) == 0, dpoly(a, b, c, 0) == sl)),
                     ("cubic_joins_orifice_law_at_delta", poly(a, b, c, d, dl) == CD * A * c_val),
                     ("cubic_slope_matches_orifice_law", dpoly(a, b, c, dl) == real_val(0.5) * CD * A * c_slope),
-                    ("updater_tracks_inputs", updater_registered(upd, node, ["leak_discharge_coeff", "leak_area"], param.leak_poly_coeffs_param))]
+                    ("updater_tracks_inputs", updater_registered(upd, node, ["leak_discharge_coeff", "leak_area"], param.leak_poly_coeffs_param))] + \
+                ([("existing_parameters_are_updated_in_place_the_objects_the_rows_refer_to_stay", all(cx.interp.getitem(m.fields[k], n) is before[k] for k in names))] if existing else [])
         cx.ensure(post)
     return Case("leak_poly,%s,existing=%s" % (cls.__name__, existing), build, crosscheck=False)
 
